@@ -10,7 +10,7 @@ from ..dataflow import bind_call, chain_key, fmt_origin, origins
 from ..decide import Decider, LoopFacts, expand_expr, role_of
 from ..loader import AnalysisError, ConstInfo, FuncInfo
 from ..report import Ctx
-from .common import all_guards, call_name, direct_guards, norm, where
+from .common import all_guards, call_name, deep_origins, direct_guards, factory_closure, norm, where
 
 TW = "flowmark.linewrapping.text_wrapping"
 LW = "flowmark.linewrapping.line_wrappers"
@@ -36,18 +36,12 @@ def iteration_paths(flow, head: Node, limit: int = 4000) -> list[list[Node]]:
 
 def sentence_wrapper(ctx: Ctx) -> FuncInfo:
     fac = ctx.repo.func(f"{LW}:line_wrap_by_sentence")
-    inner = [f for f in fac.local_defs.values() if isinstance(f, FuncInfo)]
-    if len(inner) != 1:
-        raise AnalysisError("line_wrap_by_sentence must define exactly one inner wrapper")
-    return inner[0]
+    return factory_closure(ctx.prog, fac)
 
 
 def width_wrapper(ctx: Ctx) -> FuncInfo:
     fac = ctx.repo.func(f"{LW}:line_wrap_to_width")
-    inner = [f for f in fac.local_defs.values() if isinstance(f, FuncInfo)]
-    if len(inner) != 1:
-        raise AnalysisError("line_wrap_to_width must define exactly one inner wrapper")
-    return inner[0]
+    return factory_closure(ctx.prog, fac)
 
 
 # --------------------------------------------------------------------------------------- L1 / L3
@@ -259,7 +253,7 @@ def check_placeholders(ctx: Ctx) -> None:
     ext = repo.func(f"{TW}:_extract_atomic_constructs")
     res = repo.func(f"{TW}:_restore_atomic_constructs")
     for r in flow.cfg.returns():
-        org = origins(prog, call, r.ast.value, r)
+        org = deep_origins(prog, call, r.ast.value, r, stop={res.qual})
         ok = org == frozenset({("call", res.qual)})
         ctx.ob("R-LOSSLESS-L5", f"{call.qual} :: {norm(r.ast)[:60]}", ok,
                "every return of the splitter must hand out tokens that went through _restore_atomic_constructs (no placeholder may survive)",
@@ -419,7 +413,7 @@ def check_adjacency(ctx: Ctx) -> None:
             reaches = any(flow.cfg.path_avoiding(c, r, set()) is not None for c in calls_wl)
             if not reaches:
                 continue
-            org = origins(prog, f, r.ast.value, r)
+            org = deep_origins(prog, f, r.ast.value, r, stop={den.qual})
             ctx.ob("R-LOSSLESS-L6", f"{f.qual} :: {norm(r.ast)[:60]}", org == frozenset({("call", den.qual)}),
                    "the word splitter inserts a space between adjacent tags; every text assembled from its tokens must pass through "
                    "denormalize_adjacent_tags before it is returned", where(f, r))
@@ -455,9 +449,7 @@ def check_indents(ctx: Ctx) -> None:
     decos = []
     for q in (f"{LW}:_add_markdown_hard_break_handling", f"{TH}:add_tag_newline_handling"):
         f = repo.func(q)
-        for inner in f.local_defs.values():
-            if isinstance(inner, FuncInfo):
-                decos.append((f, inner))
+        decos.append((f, factory_closure(prog, f)))
     ctx.require("R-LOSSLESS-L8", "line wrapper decorators", len(decos), 1)
     for fac, w in decos:
         flow = prog.flow(w)
@@ -467,10 +459,14 @@ def check_indents(ctx: Ctx) -> None:
             if isinstance(c.func, ast.Name) and c.func.id == fac.params[0] and len(c.args) == 3:
                 n_calls += 1
                 in_loop = any(n in flow.loop_body_nodes(h) for h in flow.cfg.nodes if h.kind == "for")
+                comp = _enclosing_comprehension(c)
                 o2 = origins(prog, w, c.args[2], n)
                 ok3 = o2 == frozenset({("param", p_sub)})
                 a1 = c.args[1]
-                if not in_loop:
+                if comp is not None:
+                    in_loop = True
+                    ok2, detail = _first_segment_indent_comp(prog, w, a1, comp, p_init, p_sub)
+                elif not in_loop:
                     ok2 = origins(prog, w, a1, n) == frozenset({("param", p_init)})
                     detail = "unsegmented call: (text, initial_indent, subsequent_indent)"
                 else:
@@ -507,6 +503,35 @@ def check_indents(ctx: Ctx) -> None:
             b = bind_call(t[0], c)
             ok = all(origins(prog, wf, b.get(p), n) == frozenset({("param", p)}) for p in ("initial_indent", "subsequent_indent"))
             ctx.ob("R-LOSSLESS-L8", f"{wf.qual} :: indents passed through", ok, "both indents must reach wrap_paragraph unchanged", where(wf, c))
+
+
+def _enclosing_comprehension(c: ast.AST) -> ast.comprehension | None:
+    """The (single) generator of the list comprehension / generator expression whose element contains `c`."""
+    from ..loader import parent
+
+    p = parent(c)
+    while p is not None and not isinstance(p, (ast.stmt, ast.Lambda)):
+        if isinstance(p, (ast.ListComp, ast.GeneratorExp)) and len(p.generators) == 1 and any(x is c for x in ast.walk(p.elt)):
+            return p.generators[0]
+        p = parent(p)
+    return None
+
+
+def _first_segment_indent_comp(prog, w: FuncInfo, a1: ast.AST, comp: ast.comprehension, p_init: str, p_sub: str) -> tuple[bool, str]:
+    facts = LoopFacts.of_comprehension(comp)
+
+    def value_leaf(cur: FuncInfo, e: ast.AST, aliases: frozenset):
+        roles = role_of(e, aliases)
+        return "INIT" if "init" in roles else ("SUB" if "sub" in roles else None)
+
+    al = frozenset({f"init={p_init}", f"sub={p_sub}"})
+    got: dict[bool, set] = {}
+    for first in (True, False):
+        fa = facts.first_atom(first)
+        dec = Decider(prog, lambda leaf, _al, fa=fa: fa(leaf), value_leaf=value_leaf)
+        got[first] = set(dec.ev(w, a1, {}, {}, al, 0))
+    ok = got[True] == {"INIT"} and got[False] == {"SUB"} and not comp.ifs
+    return ok, f"first segment gets {sorted(map(str, got[True]))}, later segments get {sorted(map(str, got[False]))}"
 
 
 def _first_segment_indent(prog, w: FuncInfo, a1: ast.AST, node: Node, p_init: str, p_sub: str) -> tuple[bool, str]:
